@@ -1,1 +1,19 @@
-fn main() { println!("vh"); }
+//! vh: conformance harness binding the TLA+ specifications in /verif/specs to
+//! the real rustradio code in /repo (built with --cfg rustradio_verif).
+mod common;
+mod ring;
+
+fn main() {
+    let args: Vec<String> = std::env::args().collect();
+    let cmd = args.get(1).map(|s| s.as_str()).unwrap_or("");
+    let rest = &args[2.min(args.len())..];
+    let code = match cmd {
+        "ring-replay" => ring::cmd_replay(rest),
+        "ring-trace" => ring::cmd_trace(rest),
+        _ => {
+            eprintln!("unknown command {cmd}");
+            2
+        }
+    };
+    std::process::exit(code);
+}
